@@ -728,4 +728,12 @@ def blockingSend (cfg : Cfg) (rx : RxKind) (prefill timeout : Nat) (x : Nat) : O
   let (first, obs) := blockingSendObs cfg rx prefill timeout x
   sendOrWait timeout first obs
 
+/-- `(queue_full_truncated, queue_full_blocked)` after a blocking / async send against the prefilled channel: the
+    first attempt is the label `sendOrWaitFirst` (the only place `send_or_wait` touches a counter, lib.rs:237); the
+    later rounds are `when_empty` registrations and `try_send`s, which move neither counter. So the truncations are
+    those of the prefill (plain sends) and the call counts as blocked iff its first attempt failed. -/
+def blockingSendCounters (cfg : Cfg) (rx : RxKind) (prefill : Nat) (x : Nat) : Nat × Nat :=
+  let b := (sendOrWaitFirst cfg { st := prefillState cfg rx prefill, mBlocked := 0 } x).1
+  (b.st.mTruncated, b.mBlocked)
+
 end EmitModel.Batcher
